@@ -97,8 +97,8 @@ PLANS['C16'] = dict(level='exploration',
     rule="all strings up to length 4 (quick) / 5 over {% 0 D A d a + SP x CR LF G 0xE4} plus random strings over 1..255 rich in %, CR, LF, +, truncated triplets; 2x2 escape flags x {Escape, EscapeEx}; 2x4 unescape options (+ uriUnescapeInPlace); output buffers exactly 3n+1 / 6n+1 flush against a fence / exact heap block; unescape buffers end at the terminator; distinct = distinct strings",
     assumptions=A_MODELS + A_MEM)
 PLANS['C17'] = dict(level='exploration',
-    runs=[R('query', 'fast', dict(random=250000, split_len=8, huge=3), dict(random=12000000, split_len=9, huge=4)),
-          R('query', 'asan', dict(random=80000, split_len=7, huge=3), dict(random=2400000, split_len=8, huge=4), dict(huge_refused=1, huge_writer_small_buffer=4))],
+    runs=[R('query', 'fast', dict(random=250000, split_len=8, huge=5), dict(random=12000000, split_len=9, huge=6)),
+          R('query', 'asan', dict(random=80000, split_len=7, huge=5), dict(random=2400000, split_len=8, huge=6), dict(huge_refused=1, huge_writer_small_buffer=4))],
     rule="all arrangements of & = a % up to length 7 (quick) / 9 through the splitter with all options; random lists of 0..8 (key, value|NULL) over 1..255: chars-required, every capacity -1..required+2 with canaries/fences, malloc variants (default / custom manager), dissect(compose(L)) round trip; one item with key = value = 200 MB / 360 MB string for the INT_MAX guards (UBSan watches the arithmetic); distinct = distinct lists / strings",
     assumptions=A_MODELS + A_MEM)
 PLANS['C18'] = dict(level='exploration',
